@@ -208,6 +208,24 @@ htp_status_t htp_ch_urlencoded_callback_request_line(htp_tx_t *tx) {
 }
 
 /**
+ * After a failure part-way through handing text parts over to the transaction:
+ * the names and values of the text parts among the first count parts belong to
+ * the transaction now, and must not be freed again together with the parts.
+ *
+ * @param[in] body
+ * @param[in] count
+ */
+static void htp_ch_multipart_disown_parts(htp_multipart_t *body, size_t count) {
+    for (size_t i = 0; i < count; i++) {
+        htp_multipart_part_t *part = htp_list_get(body->parts, i);
+        if ((part != NULL) && (part->type == MULTIPART_PART_TEXT)) {
+            part->name = NULL;
+            part->value = NULL;
+        }
+    }
+}
+
+/**
  * Finalize Multipart processing.
  * 
  * @param[in] d
@@ -234,7 +252,10 @@ htp_status_t htp_ch_multipart_callback_request_body_data(htp_tx_data_t *d) {
             // Use text parameters.
             if (part->type == MULTIPART_PART_TEXT) {
                 htp_param_t *param = calloc(1, sizeof (htp_param_t));
-                if (param == NULL) return HTP_ERROR;
+                if (param == NULL) {
+                    htp_ch_multipart_disown_parts(body, i);
+                    return HTP_ERROR;
+                }
                 param->name = part->name;
                 param->value = part->value;
                 param->source = HTP_SOURCE_BODY;
@@ -243,6 +264,7 @@ htp_status_t htp_ch_multipart_callback_request_body_data(htp_tx_data_t *d) {
 
                 if (htp_tx_req_add_param(tx, param) != HTP_OK) {
                     free(param);
+                    htp_ch_multipart_disown_parts(body, i);
                     return HTP_ERROR;
                 }
             }
